@@ -287,6 +287,9 @@ def combine(parts, method, weights=None):
                 num = num + p * w
                 den = den + w
             ok = np.isfinite(den) & (den > 0)
+            for p, w in zip(parts, weights):
+                # products that underflow (denormal or flushed to 0) lose digits: value x weight / weight is then not value
+                ok = ok & ~((p != 0) & (w != 0) & (np.abs(p * w) < 1e-280))
             return np.where(ok, num / np.where(ok, den, 1.0), np.nan), ok
     raise ValueError(method)
 
